@@ -488,6 +488,42 @@ fn client_queue(sc: &Scenario, sink: &Sink) {
     }
 }
 
+// ------------------------------------------------------------------ retry strategy passed through the C ABI
+struct RetryCtx {
+    t0: Instant,
+    connecting_at: Mutex<Vec<u64>>,
+}
+extern "C" fn retry_on_state(state: c_int, ctx: *mut c_void) {
+    let c = unsafe { &*(ctx as *const RetryCtx) };
+    if state == 1 {
+        c.connecting_at.lock().unwrap().push(c.t0.elapsed().as_millis() as u64);
+    }
+}
+
+/// a TCP client channel created through the C ABI towards a port nobody listens on: the instants of its
+/// connection attempts show the retry strategy it was given
+fn client_retry(sc: &Scenario, sink: &Sink) {
+    unsafe {
+        let rt = runtime();
+        let port = free_port();
+        let (min, max, attempts) = (sc.steps[0].start as u64, sc.steps[0].count as u64, sc.steps[0].timeout as usize);
+        let ctx = Box::leak(Box::new(RetryCtx { t0: Instant::now(), connecting_at: Mutex::new(Vec::new()) }));
+        let l = ffi::ClientStateListener { on_change: Some(retry_on_state), on_destroy: None, ctx: ctx as *mut RetryCtx as *mut c_void };
+        let host = CString::new("127.0.0.1").unwrap();
+        let mut ch: *mut rodbus_ffi::ClientChannel = std::ptr::null_mut();
+        let rc = ffi::rodbus_client_channel_create_tcp(rt, host.as_ptr(), port, 2, ffi::RetryStrategy { min_delay: min, max_delay: max }, decode0(), l, &mut ch);
+        assert_eq!(rc, 0);
+        ffi::rodbus_client_channel_enable(ch);
+        let budget: u64 = (0..attempts as u32).map(|k| std::cmp::min(min << k, max) + 600).sum();
+        wait_for(|| ctx.connecting_at.lock().unwrap().len() >= attempts, budget);
+        let at = ctx.connecting_at.lock().unwrap().clone();
+        let gaps: Vec<u64> = at.windows(2).map(|w| w[1] - w[0]).collect();
+        sink.emit(json!({"e":"ffi_retry","min":min,"max":max,"attempts":at.len(),"wanted":attempts,"gaps":gaps}));
+        ffi::rodbus_client_channel_destroy(ch);
+        ffi::rodbus_runtime_destroy(rt);
+    }
+}
+
 // ------------------------------------------------------------------ database
 struct DbCtx {
     sink: Sink,
@@ -703,6 +739,7 @@ fn main() {
             "write_results" => write_results(&sc, &sink),
             "client_ops" => client_ops(&sc, &sink),
             "client_queue" => client_queue(&sc, &sink),
+            "client_retry" => client_retry(&sc, &sink),
             "db_seq" => db_seq(&sc, &sink),
             _ => db_stress(&sc, &sink),
         }));
